@@ -185,6 +185,46 @@ def order_body(t, n_traces=3, g=G_ORD, honour_known=True, with_dup=True, rets=RE
     return check(True)
 
 
+SAMESIG_FUNCS = (F.mod_func, F.unannotated, F.Klass.method)  # (a, b) twice, (self, a)
+SAMESIG_TYPES = (int, F.Klass, None)  # a class of the stubbed module itself, a class of another module; None = parameter not traced
+
+
+def samesig_body(t):
+    """Functions whose traced signatures compare EQUAL (same names, kinds, annotations) and mention a class
+    defined in the stubbed module: whatever is memoised per signature must not make one function's stub depend on
+    which function was rendered before it (row order) or on an earlier generation in the same process."""
+    from typing import List as _List
+
+    rewriter = (MT.NoOpRewriter(), MT.DEFAULT_REWRITER)[t.take(2)]
+    traces = []
+    for func in SAMESIG_FUNCS:
+        ty = SAMESIG_TYPES[t.take(len(SAMESIG_TYPES))]
+        if ty is None:
+            continue
+        if t.take(2) == 1:
+            ty = _List[ty]
+        traces.append(CallTrace(func, {"a": ty}, None))
+    ASSUME(len(traces) >= 2)
+    base = render(traces, 0, rewriter, None)
+    rest = list(traces)
+    perm = []
+    while rest:
+        perm.append(rest.pop(t.take(len(rest)) if len(rest) > 1 else 0))
+    other = render(perm, 0, rewriter, t, depth=1)
+    if set(base) != set(other):
+        return check(False, "different modules stubbed")
+    for m in base:
+        r = same_stub(base[m], other[m], m)
+        if r:
+            return check(False, lambda: f"rewriter={type(rewriter).__name__}: {r}\n--- rows in order ---\n{base[m]}\n--- permuted rows ---\n{other[m]}")
+        try:
+            parse_stub(other[m], m)
+        except StubError as e:
+            return check(False, lambda: f"stub of the permuted rows does not evaluate: {e}\n{other[m]}")
+    return check(True)
+
+
+tape_harness("samesig", [("t", 20)], {}, samesig_body, globals())
 DIAMOND = (K.X1, K.Y1, K.X2, K.Y2, K.X3, K.Y3)
 from typing import Dict as _D, List as _L, Tuple as _T  # noqa: E402
 
@@ -252,7 +292,7 @@ tape_harness("order2q", [("t", 30)], {}, lambda t: order_body(t, 2, G_ORD, True,
 tape_harness("order2", [("t", 30)], {}, lambda t: order_body(t, 2, G_ORD2), globals())
 tape_harness("diamond1", [("t", 18)], {}, lambda t: diamond_body(t, 1), globals())
 tape_harness("diamond", [("t", 18)], {}, diamond_body, globals())
-_B = {"order3": lambda t: order_body(t, 3, G_ORD3), "order2": lambda t: order_body(t, 2, G_ORD2), "order2q": lambda t: order_body(t, 2, G_ORD, True, False, RETS[:2]),
+_B = {"samesig": samesig_body, "order3": lambda t: order_body(t, 3, G_ORD3), "order2": lambda t: order_body(t, 2, G_ORD2), "order2q": lambda t: order_body(t, 2, G_ORD, True, False, RETS[:2]),
       "diamond": diamond_body, "diamond1": lambda t: diamond_body(t, 1), "store_order": store_body, "store_order2": lambda t: store_body(t, 2)}
 
 
